@@ -12,6 +12,7 @@ CONSTANTS
   Getters = {}
   Interrupters = {5}
   Fixed = FALSE
+  LockedInterrupt = TRUE
   Contig = TRUE
   KeepHist = 1
 VIEW NoHistView
